@@ -27,9 +27,10 @@ _LOG_PREFIXES = ("logger", "_logger", "resonaateLog", "logging", "warn", "warnin
 
 
 class _Dropper(ast.NodeTransformer):
-    def __init__(self):
+    def __init__(self, super_name="__pyvc_super__"):
         self.dropped = []
         self.first_arg = None
+        self.super_name = super_name
 
     def _is_log_call(self, call):
         f = call.func
@@ -78,7 +79,7 @@ class _Dropper(ast.NodeTransformer):
         if isinstance(node.func, ast.Name) and node.func.id == "super" and not node.args and self.first_arg:
             # zero-argument super() needs the class cell of the original class body: rewritten to an explicit proxy
             self.dropped.append(f"super()->explicit-proxy@{node.lineno}")
-            return ast.copy_location(ast.Call(func=ast.Name(id="__pyvc_super__", ctx=ast.Load()),
+            return ast.copy_location(ast.Call(func=ast.Name(id=self.super_name, ctx=ast.Load()),
                                               args=[ast.Name(id=self.first_arg, ctx=ast.Load())], keywords=[]), node)
         return node
 
@@ -282,15 +283,15 @@ class Loader:
             raise KeyError(f"{spec} is not a function")
         import copy
         node = copy.deepcopy(node)
-        dr = _Dropper()
+        super_name = "__pyvc_super__" + qual.rsplit(".", 1)[0].replace(".", "_") if "." in qual else "__pyvc_super__"
+        dr = _Dropper(super_name)
         node = dr.visit(node)
         ast.fix_missing_locations(node)
         m = ast.Module(body=[node], type_ignores=[])
         code = compile(m, path, "exec")
         g = self.globals_for(mod)
-        if "." in qual:  # a method: give it a super() proxy bound to its defining class
-            g = dict(g)
-            g["__pyvc_super__"] = _make_super(self, mod, qual.rsplit(".", 1)[0])
+        if "." in qual:  # a method: give it a super() proxy bound to its defining class (shared namespace, unique name)
+            g[super_name] = _make_super(self, mod, qual.rsplit(".", 1)[0])
         ns = {}
         exec(code, g, ns)
         f = _code_wrapper(ns[node.name])
@@ -385,7 +386,10 @@ class Loader:
                 elif isinstance(ch, (ast.Assign, ast.AnnAssign)):
                     tgt = ch.targets[0] if isinstance(ch, ast.Assign) else ch.target
                     if isinstance(tgt, ast.Name) and hasattr(klass, tgt.id):
-                        ns[tgt.id] = klass.__dict__.get(tgt.id, getattr(klass, tgt.id))
+                        val = klass.__dict__.get(tgt.id, getattr(klass, tgt.id))
+                        if hasattr(type(val), "__set__") or hasattr(type(val), "__delete__"):
+                            continue  # data descriptors (ORM columns, ...) are not carried over: instances hold plain values
+                        ns[tgt.id] = val
         ns.update(extra_methods or {})
         ns.pop("__slots__", None)
         c = type(real.__name__, (), ns)
